@@ -46,6 +46,9 @@ func Parse(s string) (rule.Rule, error) {
 	if err := ruleFlagSet.flagSet.Parse(args); err != nil {
 		return nil, err
 	}
+	if ruleFlagSet.flagSet.NArg() > 0 {
+		return nil, fmt.Errorf("unexpected arguments: %v", ruleFlagSet.flagSet.Args())
+	}
 	if err := ruleFlagSet.validate(); err != nil {
 		return nil, err
 	}
